@@ -51,3 +51,651 @@ func VerifH_c18_signext() {
 	vAssert("signext-eq", got == want)
 	vReach("signext-neg", got < 0)
 }
+
+// refSetBits writes the low 'width' bits of v at bit offset start (branch
+// free in start/width); returns the new array.
+func refSetBits(b []byte, start, width int, v uint64) []byte {
+	out := make([]byte, len(b))
+	copy(out, b)
+	for i := 0; i < len(b)*8; i++ {
+		inField := vAnd(i >= start, i < start+width)
+		// bit k of the field (0 = most significant) is bit width-1-k of v
+		k := i - start
+		var nb uint64
+		sh := uint(width-1-k) & 63
+		nb = (v >> sh) & 1
+		old := uint64(out[i/8]>>(7-uint(i%8))) & 1
+		bit := uint64(vIte64(inField, int64(nb), int64(old)))
+		mask := byte(1) << (7 - uint(i%8))
+		out[i/8] = out[i/8]&^mask | byte(bit)<<(7-uint(i%8))
+	}
+	return out
+}
+
+// VerifH_c18_setbitfield: setBitfield writes exactly the addressed bits.
+func VerifH_c18_setbitfield() {
+	bytes := vBytesN("b", 10)
+	start := vInt("start")
+	width := vInt("width")
+	v := vInt64("v")
+	vAssume(start >= 0 && start < 16)
+	vAssume(width >= 1 && width <= 64)
+	want := refSetBits(bytes, start, width, uint64(v))
+	setBitfield(bytes, start, width, v)
+	vAssert("setbitfield-eq", vBytesEq(bytes, want))
+	vReach("setbitfield-unaligned-wide", width == 64 && start == 3)
+}
+
+// Redis' checkSignedBitfieldOverflow: returns (overflow direction, wrapped value)
+func refSignedOverflow(value, incr int64, bits int) (int, int64) {
+	var max int64
+	if bits == 64 {
+		max = 9223372036854775807
+	} else {
+		max = int64(1)<<uint(bits-1) - 1
+	}
+	min := -max - 1
+	maxincr := max - value
+	minincr := min - value
+	dir := 0
+	if value > max || (bits != 64 && incr > maxincr) || (value >= 0 && incr > 0 && incr > maxincr) {
+		dir = 1
+	} else if value < min || (bits != 64 && incr < minincr) || (value < 0 && incr < 0 && incr < minincr) {
+		dir = -1
+	}
+	c := uint64(value) + uint64(incr)
+	if bits < 64 {
+		msb := uint64(1) << uint(bits-1)
+		mask := ^uint64(0) << uint(bits)
+		if c&msb != 0 {
+			c |= mask
+		} else {
+			c &^= mask
+		}
+	}
+	return dir, int64(c)
+}
+
+// VerifH_c18_signed_overflow: signedBitfieldOverflow against Redis'
+// checkSignedBitfieldOverflow for all values, increments and widths.
+func VerifH_c18_signed_overflow() {
+	a := vInt64("a")
+	b := vInt64("b")
+	bits := vInt("bits")
+	vAssume(bits >= 1 && bits <= 64)
+	gotDir, gotWrapped := signedBitfieldOverflow(a, b, bits)
+	dir, wrapped := refSignedOverflow(a, b, bits)
+	vAssert("signed-overflow-dir", gotDir == dir)
+	vAssert("signed-overflow-wrapped", gotWrapped == wrapped)
+	// and against exact arithmetic for an in-range old value
+	if bits < 64 {
+		lim := int64(1) << uint(bits-1)
+		if a >= -lim && a < lim && b > -4611686018427387904 && b < 4611686018427387904 {
+			sum := a + b // cannot overflow: |a| < 2^62, |b| < 2^62
+			vAssert("signed-overflow-exact", (gotDir > 0) == (sum >= lim) && (gotDir < 0) == (sum < -lim))
+		}
+	}
+	vReach("signed-overflow-64", bits == 64 && dir != 0)
+	vReach("signed-underflow", dir < 0 && bits == 8)
+}
+
+// VerifH_c18_unsigned_overflow: unsignedBitfieldOverflow for all inputs.
+func VerifH_c18_unsigned_overflow() {
+	v := vUint64("v")
+	incr := vInt64("incr")
+	bits := vInt("bits")
+	vAssume(bits >= 1 && bits <= 63)
+	gotDir, gotWrapped := unsignedBitfieldOverflow(v, incr, bits)
+	max := uint64(1)<<uint(bits) - 1
+	vAssert("unsigned-wrapped", gotWrapped == (v+uint64(incr))&max)
+	if bits <= 62 && v <= max && incr > -4611686018427387904 && incr < 4611686018427387904 {
+		// exact: v < 2^62 and |incr| < 2^62, so int64(v)+incr cannot overflow
+		sum := int64(v) + incr
+		vAssert("unsigned-dir-exact", (gotDir > 0) == (sum > int64(max)) && (gotDir < 0) == (sum < 0))
+	}
+	if v > max {
+		vAssert("unsigned-out-of-range-value-overflows", gotDir > 0)
+	}
+	vReach("unsigned-underflow", gotDir < 0)
+}
+
+// bitfield command-level model (bitfieldGeneric of Redis 7 bitops.c) for a
+// single operation on a key holding 'cur' (nil = missing key).
+//
+//	kind 0 GET, 1 SET, 2 INCRBY ; ow 0 WRAP 1 SAT 2 FAIL
+//
+// returns (reply is nil, reply value, resulting bytes, key written)
+func refBitfield(cur []byte, kind int, signed bool, bits, off int, arg int64, ow int) (bool, int64, []byte, bool) {
+	need := (off+bits-1)/8 + 1
+	buf := cur
+	if kind != 0 && len(buf) < need {
+		nb := make([]byte, need)
+		copy(nb, buf)
+		buf = nb
+	}
+	// read the old value (zero beyond the end)
+	var raw uint64
+	for k := 0; k < bits; k++ {
+		i := off + k
+		var bit uint64
+		if i/8 < len(buf) {
+			bit = uint64(buf[i/8]>>(7-uint(i%8))) & 1
+		}
+		raw = raw<<1 | bit
+	}
+	old := int64(raw)
+	if signed && bits < 64 && raw&(uint64(1)<<uint(bits-1)) != 0 {
+		old = int64(raw | ^uint64(0)<<uint(bits))
+	}
+	if kind == 0 {
+		return false, old, cur, false
+	}
+	var newval, retval int64
+	overflow := false
+	if signed {
+		var max int64
+		if bits == 64 {
+			max = 9223372036854775807
+		} else {
+			max = int64(1)<<uint(bits-1) - 1
+		}
+		min := -max - 1
+		var dir int
+		var wrapped int64
+		if kind == 2 {
+			dir, wrapped = refSignedOverflow(old, arg, bits)
+			newval = old + arg
+		} else {
+			dir, wrapped = refSignedOverflow(arg, 0, bits)
+			newval = arg
+		}
+		if dir != 0 {
+			overflow = true
+			switch ow {
+			case 0:
+				newval = wrapped
+			case 1:
+				if dir > 0 {
+					newval = max
+				} else {
+					newval = min
+				}
+			}
+		}
+		if kind == 2 {
+			retval = newval
+		} else {
+			retval = old
+		}
+	} else {
+		max := uint64(1)<<uint(bits) - 1 // bits <= 63
+		var value uint64
+		var incr int64
+		if kind == 2 {
+			value, incr = uint64(old), arg
+		} else {
+			value, incr = uint64(arg), 0
+		}
+		maxincr := max - value
+		minincr := -int64(value)
+		dir := 0
+		if value > max || (incr > 0 && uint64(incr) > maxincr) {
+			dir = 1
+		} else if incr < 0 && incr < minincr {
+			dir = -1
+		}
+		res := (value + uint64(incr)) & max
+		if dir != 0 {
+			overflow = true
+			if ow == 1 {
+				if dir > 0 {
+					res = max
+				} else {
+					res = 0
+				}
+			}
+		}
+		newval = int64(res)
+		if kind == 2 {
+			retval = newval
+		} else {
+			retval = old
+		}
+	}
+	if overflow && ow == 2 {
+		return true, 0, cur, false
+	}
+	out := make([]byte, len(buf))
+	copy(out, buf)
+	for k := 0; k < bits; k++ {
+		i := off + k
+		bit := byte(uint64(newval)>>uint(bits-1-k)) & 1
+		mask := byte(1) << (7 - uint(i%8))
+		out[i/8] = out[i/8]&^mask | bit<<(7-uint(i%8))
+	}
+	return false, retval, out, true
+}
+
+var vBitWidthsQuick = []int{1, 2, 7, 8, 9, 16, 33, 63, 64}
+
+// VerifH_c18_bitfield_cmd: one BITFIELD operation through the real
+// dispatcher: type and offset from a table (all types in the thorough
+// tier), stored bytes and value symbolic, every OVERFLOW mode.
+func VerifH_c18_bitfield_cmd() {
+	VerifSetup()
+	cs := vNewClient()
+	var bits int
+	if vTier() > 0 {
+		bits = vChoice("bits", 64) + 1
+	} else {
+		bits = vBitWidthsQuick[vChoice("bits", len(vBitWidthsQuick))]
+	}
+	signed := vBool("signed")
+	if !signed && bits == 64 {
+		return
+	}
+	offs := []int{0, 1, 7, 8, 13}
+	off := offs[vChoice("off", len(offs))]
+	offArg := vItoa(off)
+	if off == 13 && vBool("hashoffset") { // '#n' = n * width
+		n := vChoice("n", 2)
+		off = n * bits
+		offArg = "#" + vItoa(n)
+	}
+	vAssume(off+bits <= 80)
+	// key: missing, or 0..3 bytes
+	var cur []byte
+	if vBool("exists") {
+		cur = vBytesN("cur", 2)
+		vCmd(cs, "SET", "k", string(cur))
+	}
+	kind := vChoice("kind", 3)
+	ow := 0
+	if kind != 0 {
+		ow = vChoice("ow", 3)
+	}
+	typ := "u"
+	if signed {
+		typ = "i"
+	}
+	typ += vItoa(bits)
+	args := []string{"BITFIELD", "k"}
+	if kind != 0 {
+		args = append(args, "OVERFLOW", []string{"WRAP", "SAT", "FAIL"}[ow])
+	}
+	var arg int64
+	switch kind {
+	case 0:
+		args = append(args, "GET", typ, offArg)
+	case 1:
+		s := vDecimal("value")
+		arg = vDecimalOf(s)
+		args = append(args, "SET", typ, offArg, s)
+	case 2:
+		s := vDecimal("value")
+		arg = vDecimalOf(s)
+		args = append(args, "INCRBY", typ, offArg, s)
+	}
+	var r respValue
+	panicked, msg := vCatch(func() { r = vCmd(cs, args...) })
+	vAssert("bitfield-no-panic", !panicked)
+	if panicked {
+		vNote(msg)
+		return
+	}
+	isNil, want, wantBytes, written := refBitfield(cur, kind, signed, bits, off, arg, ow)
+	a, ok := vArrayOf(r)
+	vAssert("bitfield-reply-shape", ok && len(a) == 1)
+	if !ok || len(a) != 1 {
+		return
+	}
+	if isNil {
+		vAssert("bitfield-fail-nil", vIsNil(a[0]))
+	} else {
+		vAssert("bitfield-reply-value", vIsInt(a[0], want))
+	}
+	g := vCmd(cs, "GET", "k")
+	if cur == nil && !written {
+		vAssert("bitfield-read-does-not-create", vIsNil(g))
+	} else {
+		vAssert("bitfield-stored-bytes", vIsBulk(g, string(wantBytes)))
+	}
+	vReach("bitfield-overflow-fail", isNil)
+	vReach("bitfield-signed-set", kind == 1 && signed && written)
+}
+
+// VerifH_c18_setgetbit: SETBIT / GETBIT for all offsets (growth bounded).
+func VerifH_c18_setgetbit() {
+	VerifSetup()
+	cs := vNewClient()
+	var cur []byte
+	exists := vBool("exists")
+	if exists {
+		cur = vBytes("cur", 3)
+		vCmd(cs, "SET", "k", string(cur))
+	}
+	os := vDecimal("off")
+	off := vDecimalOf(os)
+	if vBool("set") {
+		bs := vDecimal("bit")
+		bit := vDecimalOf(bs)
+		// growth bound of this harness; larger offsets up to 2^32-1 are legal
+		// and allocate offset/8 bytes
+		vAssume(off < 40 || off >= 4294967296)
+		var r respValue
+		panicked, msg := vCatch(func() { r = vCmd(cs, "SETBIT", "k", os, bs) })
+		vAssert("setbit-no-panic", !panicked)
+		if panicked {
+			vNote(msg)
+			return
+		}
+		if off < 0 || off >= 4294967296 || (bit != 0 && bit != 1) {
+			vAssert("setbit-bad-arg-error", vIsErr(r))
+			g := vCmd(cs, "GET", "k")
+			if exists {
+				vAssert("setbit-error-inert", vIsBulk(g, string(cur)))
+			} else {
+				vAssert("setbit-error-no-create", vIsNil(g))
+			}
+			return
+		}
+		o := int(off)
+		need := o/8 + 1
+		buf := cur
+		if len(buf) < need {
+			nb := make([]byte, need)
+			copy(nb, buf)
+			buf = nb
+		}
+		old := int64(buf[o/8]>>(7-uint(o%8))) & 1
+		out := make([]byte, len(buf))
+		copy(out, buf)
+		mask := byte(1) << (7 - uint(o%8))
+		out[o/8] = out[o/8]&^mask | byte(bit)<<(7-uint(o%8))
+		vAssert("setbit-old", vIsInt(r, old))
+		vAssert("setbit-stored", vIsBulk(vCmd(cs, "GET", "k"), string(out)))
+		return
+	}
+	r := vCmd(cs, "GETBIT", "k", os)
+	if off < 0 || off >= 4294967296 {
+		vAssert("getbit-bad-offset-error", vIsErr(r))
+		return
+	}
+	want := int64(0)
+	if off/8 < int64(len(cur)) {
+		want = int64(cur[off/8]>>(7-uint(off%8))) & 1
+	}
+	vAssert("getbit-value", vIsInt(r, want))
+	g := vCmd(cs, "GET", "k")
+	if exists {
+		vAssert("getbit-readonly", vIsBulk(g, string(cur)))
+	} else {
+		vAssert("getbit-no-create", vIsNil(g))
+	}
+}
+
+func refPopcount(b byte) int64 {
+	var n int64
+	for i := 0; i < 8; i++ {
+		n += int64(b>>uint(i)) & 1
+	}
+	return n
+}
+
+// VerifH_c18_bitcount: BITCOUNT key [start end [BYTE|BIT]] for all int64.
+func VerifH_c18_bitcount() {
+	VerifSetup()
+	cs := vNewClient()
+	exists := vBool("exists")
+	var cur []byte
+	if exists {
+		cur = vBytes("cur", 1+vTier())
+		vCmd(cs, "SET", "k", string(cur))
+	}
+	args := []string{"BITCOUNT", "k"}
+	hasRange := vBool("range")
+	isBit := false
+	var start, end int64
+	if hasRange {
+		ss, es := vDecimal("start"), vDecimal("end")
+		start, end = vDecimalOf(ss), vDecimalOf(es)
+		args = append(args, ss, es)
+		switch vChoice("unit", 3) {
+		case 1:
+			args = append(args, "BYTE")
+		case 2:
+			args = append(args, "BIT")
+			isBit = true
+		}
+	}
+	var r respValue
+	panicked, msg := vCatch(func() { r = vCmd(cs, args...) })
+	vAssert("bitcount-no-panic", !panicked)
+	if panicked {
+		vNote(msg)
+		return
+	}
+	if !exists {
+		vAssert("bitcount-missing-0", vIsInt(r, 0))
+		return
+	}
+	strlen := int64(len(cur))
+	if !hasRange {
+		var n int64
+		for _, b := range cur {
+			n += refPopcount(b)
+		}
+		vAssert("bitcount-all", vIsInt(r, n))
+		return
+	}
+	totlen := strlen
+	if isBit {
+		totlen <<= 3
+	}
+	var want int64
+	if !(start < 0 && end < 0 && start > end) {
+		if start < 0 {
+			start += totlen
+		}
+		if end < 0 {
+			end += totlen
+		}
+		if start < 0 {
+			start = 0
+		}
+		if end < 0 {
+			end = 0
+		}
+		if end >= totlen {
+			end = totlen - 1
+		}
+		if start <= end {
+			// count bits [sbit, ebit]
+			sbit, ebit := start, end
+			if !isBit {
+				sbit, ebit = start*8, end*8+7
+			}
+			for i := int64(0); i < strlen*8; i++ {
+				if i >= sbit && i <= ebit {
+					want += int64(cur[i/8]>>(7-uint(i%8))) & 1
+				}
+			}
+		}
+	}
+	vAssert("bitcount-range", vIsInt(r, want))
+	vReach("bitcount-start-beyond-end", hasRange && start >= strlen && strlen > 0)
+}
+
+// VerifH_c18_bitpos: BITPOS key bit [start [end [BYTE|BIT]]] for all int64.
+func VerifH_c18_bitpos() {
+	VerifSetup()
+	cs := vNewClient()
+	exists := vBool("exists")
+	var cur []byte
+	if exists {
+		cur = vBytes("cur", 1+vTier())
+		vCmd(cs, "SET", "k", string(cur))
+	}
+	bs := vDecimal("bit")
+	bit := vDecimalOf(bs)
+	args := []string{"BITPOS", "k", bs}
+	form := vChoice("form", 4) // 0 none, 1 start, 2 start end, 3 start end unit
+	isBit := false
+	var start, end int64
+	endGiven := false
+	if form >= 1 {
+		ss := vDecimal("start")
+		start = vDecimalOf(ss)
+		args = append(args, ss)
+	}
+	if form >= 2 {
+		es := vDecimal("end")
+		end = vDecimalOf(es)
+		endGiven = true
+		args = append(args, es)
+	}
+	if form == 3 {
+		if vBool("unitbit") {
+			args = append(args, "BIT")
+			isBit = true
+		} else {
+			args = append(args, "BYTE")
+		}
+	}
+	var r respValue
+	panicked, msg := vCatch(func() { r = vCmd(cs, args...) })
+	vAssert("bitpos-no-panic", !panicked)
+	if panicked {
+		vNote(msg)
+		return
+	}
+	if bit != 0 && bit != 1 {
+		vAssert("bitpos-bad-bit-error", vIsErr(r))
+		return
+	}
+	if !exists {
+		if bit == 1 {
+			vAssert("bitpos-missing-1", vIsInt(r, -1))
+		} else {
+			vAssert("bitpos-missing-0", vIsInt(r, 0))
+		}
+		return
+	}
+	strlen := int64(len(cur))
+	totlen := strlen
+	if isBit {
+		totlen <<= 3
+	}
+	if !endGiven {
+		end = totlen - 1
+	}
+	if start < 0 {
+		start += totlen
+	}
+	if end < 0 {
+		end += totlen
+	}
+	if start < 0 {
+		start = 0
+	}
+	if end < 0 {
+		end = 0
+	}
+	if end >= totlen {
+		end = totlen - 1
+	}
+	want := int64(-1)
+	if start <= end {
+		sbit, ebit := start, end
+		if !isBit {
+			sbit, ebit = start*8, end*8+7
+		}
+		found := false
+		for i := int64(0); i < strlen*8; i++ {
+			if !found && i >= sbit && i <= ebit {
+				if int64(cur[i/8]>>(7-uint(i%8)))&1 == bit {
+					want = i
+					found = true
+				}
+			}
+		}
+		if !found && bit == 0 && !endGiven {
+			// all ones and no explicit end: the first zero is just past the string
+			want = ebit + 1
+		}
+	}
+	vAssert("bitpos-position", vIsInt(r, want))
+	vReach("bitpos-zero-past-end", exists && bit == 0 && !endGiven && want == strlen*8 && strlen > 0)
+}
+
+// VerifH_c18_bitop: BITOP AND|OR|XOR|NOT with zero padding to the longest.
+func VerifH_c18_bitop() {
+	VerifSetup()
+	cs := vNewClient()
+	mk := func(k, name string) []byte {
+		if !vBool(name + ".exists") {
+			return nil
+		}
+		b := vBytes(name, 2)
+		vCmd(cs, "SET", k, string(b))
+		return b
+	}
+	a := mk("a", "a")
+	b := mk("b", "b")
+	op := vChoice("op", 4)
+	destIsA := vBool("dest-is-a")
+	dk := "d"
+	if destIsA {
+		dk = "a"
+	}
+	var r respValue
+	var want []byte
+	if op == 3 {
+		r = vCmd(cs, "BITOP", "NOT", dk, "a")
+		want = make([]byte, len(a))
+		for i := range a {
+			want[i] = ^a[i]
+		}
+	} else {
+		name := []string{"AND", "OR", "XOR"}[op]
+		r = vCmd(cs, "BITOP", name, dk, "a", "b")
+		n := len(a)
+		if len(b) > n {
+			n = len(b)
+		}
+		want = make([]byte, n)
+		for i := 0; i < n; i++ {
+			var x, y byte
+			if i < len(a) {
+				x = a[i]
+			}
+			if i < len(b) {
+				y = b[i]
+			}
+			switch op {
+			case 0:
+				want[i] = x & y
+			case 1:
+				want[i] = x | y
+			case 2:
+				want[i] = x ^ y
+			}
+		}
+	}
+	vAssert("bitop-len", vIsInt(r, int64(len(want))))
+	g := vCmd(cs, "GET", dk)
+	if len(want) == 0 {
+		// Redis deletes the destination when the result is empty
+		vAssert("bitop-empty-result-no-key", vIsNil(g))
+	} else {
+		vAssert("bitop-result", vIsBulk(g, string(want)))
+	}
+	if !destIsA {
+		ga := vCmd(cs, "GET", "a")
+		if a == nil {
+			vAssert("bitop-operand-a-still-missing", vIsNil(ga))
+		} else {
+			vAssert("bitop-operand-a-unchanged", vIsBulk(ga, string(a)))
+		}
+	}
+}
